@@ -68,7 +68,22 @@ Definition spec_ok15 (c : vcase) (o : vobs) : bool :=
 Definition kf_case (pushed : list var) (c : case) : N :=
   first_nz (scan (map fst (ds_named (c_ds c))) false pushed (c_alg c))
            (if nonempty (inter (bool_vars (c_alg c)) (cmp_vars (c_alg c))) then 9 else 0).
+(* initBindings are never forgotten (FrozenBindings.forget keeps them): an
+   expression that mentions such a variable where its own pattern does not
+   certainly bind it sees a value the algebra does not give it *)
+Fixpoint init_vis (pushed : list var) (p : alg) : bool :=
+  let bad e q := existsb (fun v => memv v (evars e) && negb (memv v (cert q))) pushed in
+  match p with
+  | BGP _ | Values _ => false
+  | Join _ a b | Union a b | Minus a b => init_vis pushed a || init_vis pushed b
+  | LeftJoin _ a b e => bad e a || init_vis pushed a || init_vis pushed b
+  | Filter _ _ e q => bad e q || init_vis pushed q
+  | Extend _ q _ e => bad e q || init_vis pushed q
+  | Project q _ | Graph _ q | Distinct q => init_vis pushed q
+  end.
+
 Definition kf_group (g : group) : bool :=
+  (nonempty (g_pushed g) && init_vis (g_pushed g) (c_alg (g_base g))) ||
   negb (N.eqb (kf_case (g_pushed g) (g_base g)) 0)
   || existsb (fun cv => negb (N.eqb (kf_case (g_pushed g) (fst cv)) 0)) (g_vars g).
 Definition kf15 (c : vcase) : N :=
